@@ -727,6 +727,10 @@ func (h *vc17H) body(s vc17Shape, g vc17Group) []byte {
 		}
 		if g.fmtJS {
 			m["format"] = "json"
+			m["options"] = vc17Options
+			if !s.raw {
+				m["system"] = "Be terse."
+			}
 		}
 	case "chat":
 		m["messages"] = vc17Msgs(s)
@@ -735,6 +739,7 @@ func (h *vc17H) body(s vc17Shape, g vc17Group) []byte {
 		}
 		if g.fmtJS {
 			m["format"] = "json"
+			m["options"] = vc17Options
 		}
 	case "oachat":
 		m["messages"] = vc17Msgs(s)
@@ -746,11 +751,20 @@ func (h *vc17H) body(s vc17Shape, g vc17Group) []byte {
 		}
 		if g.fmtJS {
 			m["response_format"] = map[string]any{"type": "json_object"}
+			m["stop"] = []string{"\n\n", "END"}
+			m["max_tokens"] = 64
+			m["seed"] = 7
+			m["temperature"] = 0.5
 		}
 	case "oacmpl":
 		m["prompt"] = "Why is the sky blue?"
 		if s.usage {
 			m["stream_options"] = map[string]any{"include_usage": true}
+		}
+		if g.fmtJS {
+			m["stop"] = "END"
+			m["max_tokens"] = 64
+			m["seed"] = 7
 		}
 	}
 	b, err := json.Marshal(m)
@@ -759,6 +773,9 @@ func (h *vc17H) body(s vc17Shape, g vc17Group) []byte {
 	}
 	return b
 }
+
+// request options (stop, num_predict, ...) are handed to the runner untouched; the replies must not depend on them
+var vc17Options = map[string]any{"stop": []string{"\n\n", "END"}, "num_predict": 64, "temperature": 0, "seed": 7}
 
 func vc17Msgs(s vc17Shape) []map[string]any {
 	last := map[string]any{"role": "user", "content": "What is the weather in Paris?"}
@@ -789,6 +806,12 @@ func (h *vc17H) request(s vc17Shape, g vc17Group) vc17Res {
 		var err error
 		if s.ep == "cgen" {
 			greq := &api.GenerateRequest{Model: s.model, Prompt: "Why is the sky blue?", Stream: stream, Raw: s.raw, Format: format}
+			if g.fmtJS {
+				greq.Options = vc17Options
+				if !s.raw {
+					greq.System = "Be terse."
+				}
+			}
 			if s.ctx {
 				greq.Context = []int{3, 1, 4}
 			}
@@ -800,6 +823,9 @@ func (h *vc17H) request(s vc17Shape, g vc17Group) vc17Res {
 				cmsgs = append(cmsgs, api.Message{Role: m["role"].(string), Content: m["content"].(string)})
 			}
 			req := &api.ChatRequest{Model: s.model, Messages: cmsgs, Stream: stream, Format: format}
+			if g.fmtJS {
+				req.Options = vc17Options
+			}
 			if s.tools {
 				if err := json.Unmarshal(vc17ToolDefs, &req.Tools); err != nil {
 					h.t.Fatal(err)
@@ -951,6 +977,9 @@ func (h *vc17H) runGroup(g vc17Group) {
 	h.out.Count("fault_" + g.flt())
 	if g.doneB {
 		h.out.Count("done_chunk_has_content")
+	}
+	if g.fmtJS {
+		h.out.Count("requests_with_format_options_system")
 	}
 	if early {
 		h.out.Count("tools_early_parse")
@@ -1437,6 +1466,28 @@ func TestVerifC17(t *testing.T) {
 		return
 	}
 
+	// regression inputs first
+	if dir := os.Getenv("VERIF_CORPUS"); dir != "" {
+		files, _ := os.ReadDir(dir)
+		for _, f := range files {
+			raw, err := os.ReadFile(dir + "/" + f.Name())
+			if err != nil {
+				t.Fatal(err)
+			}
+			for _, line := range strings.Split(string(raw), "\n") {
+				if !strings.HasPrefix(line, "grp ") {
+					continue
+				}
+				g, err := vc17ParseGroup(strings.TrimSpace(line))
+				if err != nil {
+					t.Fatal(err)
+				}
+				h.runGroup(g)
+				h.out.Count("corpus_groups")
+			}
+		}
+	}
+
 	root := zzverif.NewRng(zzverif.Seed())
 	exhaustiveMax := zzverif.EnvInt("VERIF_N", 6)
 	randomTexts := zzverif.EnvInt("VERIF_TEXTS", 12)
@@ -1447,5 +1498,17 @@ func TestVerifC17(t *testing.T) {
 	for i := 0; i < randomTexts; i++ {
 		r := root.Fork()
 		h.runText(r, vc17RandomText(r, exhaustiveMax+2), exhaustiveMax, samples)
+	}
+}
+
+// TestVerifC17Table: Tie 1 — the real llm.DoneReason.String() over 0..7 (regenerated into
+// lean/OllamaVerif/Generated/C17_Reasons.lean on every run)
+func TestVerifC17Table(t *testing.T) {
+	var b strings.Builder
+	for i := 0; i < 8; i++ {
+		fmt.Fprintf(&b, "%d %s\n", i, zzverif.Hex([]byte(llm.DoneReason(i).String())))
+	}
+	if err := os.WriteFile(zzverif.OutDir()+"/table.txt", []byte(b.String()), 0o644); err != nil {
+		t.Fatal(err)
 	}
 }
